@@ -46,3 +46,22 @@ Definition n_defaultdict : text := Eval compute in tx "defaultdict".
 Definition n_ChainMap : text := Eval compute in tx "ChainMap".
 Definition tx_class_open : text := Eval compute in tx "<class '".
 Definition tx_class_close : text := Eval compute in tx "'>".
+
+(* handler names of the reader_for table *)
+Definition h_INVALID : text := Eval compute in tx "INVALID".
+Definition h_line_comment : text := Eval compute in tx "line_comment".
+Definition h_keyword : text := Eval compute in tx "keyword".
+Definition h_prefixed_string : text := Eval compute in tx "prefixed_string".
+Definition h_tag_as : text := Eval compute in tx "tag_as".
+Definition h_unquote : text := Eval compute in tx "unquote".
+Definition h_sequence : text := Eval compute in tx "sequence".
+Definition h_tag_dispatch : text := Eval compute in tx "tag_dispatch".
+Definition h_discard : text := Eval compute in tx "discard".
+Definition h_hash_star : text := Eval compute in tx "hash_star".
+Definition h_annotate : text := Eval compute in tx "annotate".
+Definition h_bracketed_string : text := Eval compute in tx "bracketed_string".
+Definition m_Expression : text := Eval compute in tx "Expression".
+Definition m_List : text := Eval compute in tx "List".
+Definition m_Dict : text := Eval compute in tx "Dict".
+Definition m_Set : text := Eval compute in tx "Set".
+Definition m_Tuple : text := Eval compute in tx "Tuple".
